@@ -175,7 +175,7 @@ inline MVal gen_good_op(Rng& r, const MVal& doc, const GenOpts& go) {
             MVal o = mk_op("test", make_ptr(p));
             // RFC 6902 4.6: numbers are equal when numerically equal, whatever their representation
             if (node->k == MVal::Int && node->i > -1000000 && node->i < 1000000 && r.chance(1, 3)) o.set("value", MVal::dbl((double)node->i));
-            else if (node->k == MVal::Dbl && node->d == (double)(int64_t)node->d && node->d > -1e6 && node->d < 1e6 && r.chance(1, 3)) o.set("value", MVal::integer((int64_t)node->d));
+            else if (node->k == MVal::Dbl && node->d > -1e6 && node->d < 1e6 && node->d == (double)(int64_t)node->d && r.chance(1, 3)) o.set("value", MVal::integer((int64_t)node->d));
             else o.set("value", *node);
             return o;
         }
